@@ -192,11 +192,14 @@ def run_history(ctx, hid, rng, nruns, junk_prob):
             kind = rng.choice(['empty-group', 'empty-group', 'hidden-root', 'hidden-in-group', 'temp-backup-empty'] if benign else JUNK)
             seed_junk(rng, root, kind, now)
             junk.append(kind)
-        store.write_config(cfg, 'b', root, [{'path': src}], maxg, maxp)
+        # one run in six has a reported, non-fatal error (a configured item that does not exist): the backup is still
+        # published, so retention applies as after any other publishing run
+        soft = rng.random() < 0.17
+        store.write_config(cfg, 'b', root, [{'path': src}] + ([{'path': os.path.join(base, 'no-such-item')}] if soft else []), maxg, maxp)
         pre = snapshot(root)
         r = store.run_vsb(ctx, ['-c', cfg, 'backup', 'b'], now=now)
         post = snapshot(root)
-        steps.append({'history': hid, 'run': k, 'pre': pre, 'post': post, 'rc': r.rc, 'errors': r.errors()[:6],
+        steps.append({'history': hid, 'run': k, 'pre': pre, 'post': post, 'rc': r.rc, 'errors': r.errors()[:6], 'walk_ok': not soft,
                       'today': store.group_name(now), 'bname': store.backup_name(now),
                       'max_groups': maxg, 'max_per_group': maxp, 'junk': junk, 'now': now})
     shutil.rmtree(base, ignore_errors=True)
@@ -223,7 +226,7 @@ def check(ctx):
         hist = list(ex.map(job, range(nh)))
     steps = [s for h in hist for s in h]
     lines = [core.req('rotate', {'storage': s['pre'], 'today': s['today'], 'bname': s['bname'],
-                                 'max_per_group': s['max_per_group'], 'max_groups': s['max_groups'], 'walk_ok': True})
+                                 'max_per_group': s['max_per_group'], 'max_groups': s['max_groups'], 'walk_ok': s.get('walk_ok', True)})
              for s in steps]
     model = core.run_lines(core.model_exe(), lines, shards=8)
     impl_view, model_view = [], []
